@@ -5,7 +5,7 @@ use crate::{
         GlobalDeclaration, IfStatement, Program, Statement, Variable, WhileStatement,
     },
     error::{SemanticErrorMessage, SplError},
-    ToRange,
+    Shiftable, ToRange,
 };
 use std::cmp::Ordering;
 
@@ -17,17 +17,25 @@ pub fn analyze(program: &mut Program, table: &GlobalTable) {
     program
         .global_declarations
         .iter_mut()
-        .map(|r| r.as_mut())
-        .filter_map(|dec| match dec {
-            GlobalDeclaration::Procedure(proc) => Some(proc),
-            _ => None,
+        .filter_map(|dec| {
+            let range = dec.to_range().shift(dec.offset);
+            match dec.as_mut() {
+                GlobalDeclaration::Procedure(proc) => Some((proc, range)),
+                _ => None,
+            }
         })
-        .for_each(|proc| {
+        .for_each(|(proc, range)| {
             if let Some(name) = &proc.name {
                 let entry = table
                     .lookup(&name.value)
                     .expect("Named declaration without entry");
                 if let GlobalEntry::Procedure(proc_entry) = &entry {
+                    // A redeclared procedure has no entry of its own.
+                    // The entry of the same name belongs to another (or a predefined) procedure,
+                    // whose local table does not fit to the statements of this one.
+                    if proc_entry.range != range {
+                        return;
+                    }
                     let lookup_table = &LookupTable {
                         local_table: Some(&proc_entry.local_table),
                         global_table: Some(table),
